@@ -92,10 +92,18 @@ def gen_world(rng, i, tier):
         D = d if d != " " else rng.pick([" "])
         lines, kinds, pairs = grammar.gen_conventional(rng, D, c, rng.randint(1, 40), cont_trail=False)
         w["lines"] = [[k, l] for k, l in zip(kinds, lines)]
+        if rng.chance(0.4):
+            # a parsed object that is then changed through the setters (new group-less keys, new keys in existing and
+            # new sections, overwrites) before it is written
+            fsecs = [p[0] for p in pairs if p[0] is not None and not p[0].startswith("[")]
+            tsecs = [None, None] + fsecs[:3] + ["Zed"]
+            tkeys = [p[1] for p in pairs][:3] + ["added", "k2"]
+            tkeys = [k for k in tkeys if not any(ch in k for ch in BLc + d + c + '"') and not k.startswith("[")] or ["added"]
+            w["sets_after"] = [["String", rng.pick(tsecs), rng.pick(tkeys), plain_value(rng, d, c)] for _ in range(rng.randint(1, 4))]
         # the tags may be changed on the object after it was read: write and read back with OTHER characters,
         # provided no byte of the file could be taken for them
         d2, c2 = rng.pick(["=", ":"]), rng.pick(["#", ";"])
-        text = "".join(lines)
+        text = "".join(lines) + "".join(x for st in w.get("sets_after", []) for x in st[1:] if isinstance(x, str))
         if rng.chance(0.5) and d != " " and (d2 != d or c2 != c) and (d2 == d or d2 not in text) and (c2 == c or c2 not in text):
             w["d2"], w["c2"] = d2, c2
     return w
@@ -117,6 +125,8 @@ def build_plans(world):
     else:
         tree.append({"t": "f", "p": "$ROOT/in.conf", "c": grammar.render([l for k, l in world["lines"]])})
         ops.append({"op": "readFile", "o": 0, "path": "$ROOT/in.conf", "delim": d, "comment": c, "tag": "ctor"})
+        for ty, s_, k_, val in world.get("sets_after", []):
+            ops.append({"op": "set", "k": 0, "type": ty, "group": s_, "key": k_, "v": val, "tag": "set", "need": ["k"]})
     if world.get("d2"):
         d, c = world["d2"], world["c2"]
     ops.append({"op": "setTags", "k": 0, "delim": ord(d), "comment": ord(c)})
